@@ -69,10 +69,21 @@ def render_unit(c):
                 out.append(head + ";")
             else:
                 k = kconst(e["name"])
-                terms = ["%d" % k]
-                for j, r in enumerate(sorted(e["refs"])):
-                    terms.append("%s(d - 1)" % r if j % 2 == 0 else "(*&%s)(d - 1)" % r)   # call / address-taking
-                out.append("%s { return d <= 0 ? %d : %s; }" % (head, k, " + ".join(terms)))
+                st = []
+                for j, r in enumerate(sorted(e["refs"])):           # potentially evaluated references, written as e["ev"] says
+                    kind = e.get("ev", "call")
+                    if kind == "vlatype":
+                        st.append("v += (int)sizeof(char[%s(d - 1) + 1]) - 1;" % r)
+                    elif kind == "vlatype2":
+                        st.append("v += (int)(sizeof(char[d + 2][%s(d - 1) + 1]) / (d + 2)) - 1;" % r)
+                    elif kind == "vlabound":
+                        st.append("{ char a[%s(d - 1) + 1]; v += (int)sizeof a - 1; }" % r)
+                    else:
+                        st.append("v += %s(d - 1);" % r if j % 2 == 0 else "v += (*&%s)(d - 1);" % r)
+                for j, r in enumerate(sorted(e.get("urefs", []))):  # operands that are not evaluated (6.9p3: not a use)
+                    st.append("v += (int)sizeof(%s(d - 1)) - 4;" % r if j % 2 == 0 else
+                              "v += (int)_Alignof(char[sizeof(%s(d - 1))]) - 1;" % r)
+                out.append("%s { if (d <= 0) return %d; int v = %d; %s return v; }" % (head, k, k, " ".join(st)))
         elif e["k"] == "init":
             out.append("int (*p%d)(int) = %s;" % (i, e["name"]))
             helpers["p%d" % i] = "ptr"
@@ -197,6 +208,8 @@ def check_row(name, exp, rows):
         if r is None or defs or r[0] != "GLOBAL":
             return ("missing-und" if r is None else "und-is-defined"), "expected an undefined GLOBAL reference, found %s" % (r,)
         return None
+    if st == "optund":       # named in unevaluated operands only: a reference is allowed, a definition is not
+        return None if not defs else ("defined-although-only-declared", "expected no definition, found %s" % (r,))
     if st in ("nonglobal", "optlocal"):
         if r is None or (not defs and st == "nonglobal") or (defs and r[0] == "LOCAL" and r[2] == "text"):
             return None
@@ -688,6 +701,9 @@ def run(ctx):
     plan = [("obj", dict(Mode=q("obj"), MaxLen=3 if quick else 4, N=0), None),
             ("fn", dict(Mode=q("fn"), MaxLen=3 if quick else 4, N=0), None),
             ("graph2", dict(Mode=q("graph"), N=2, SelfLoops=True), None),
+            # 2 functions, every way of writing the references (call/address, sizeof of a VLA type name, VLA bound)
+            # x references in unevaluated operands
+            ("graph2k", dict(Mode=q("graph"), N=2, SelfLoops=False, InitAfterOwn=False, FreeKinds=True), None),
             ("graph3", dict(Mode=q("graph"), N=3, SelfLoops=not quick), None),
             # 4 functions: random walks inside the closed domain (every walk ends in a complete unit) for the
             # replay; the thorough tier also model-checks the whole N = 4 graph below
@@ -703,7 +719,8 @@ def run(ctx):
             gen(ctx, out, Emit=True, workers=2 if quick else 4, pool=pool, key=tag, **consts)
     controls = (("obj", dict(Mode=q("obj"), N=0, Fixed=False)), ("fn", dict(Mode=q("fn"), N=0, Fixed=False)),
                 ("graph2", dict(Mode=q("graph"), N=2, Fixed=False)),
-                ("graph2-D23-alone", dict(Mode=q("graph"), N=2, ResetCurFn=False)))
+                ("graph2-D23-alone", dict(Mode=q("graph"), N=2, ResetCurFn=False)),
+                ("fn-sizeof-operands-not-booked", dict(Mode=q("fn"), N=0, SkipSizeof=True)))
     for tag, consts in controls:
         pool.submit("ctl-" + tag, "Linkage", ctx.cfg("link", "Linkage_mc.cfg", **consts), count=False, workers=1)
     pool.submit("Link2", "Link2", ctx.cfg("link", "Link2.cfg", Emit=True), env=dict(OUT=os.path.join(ctx.scratch, "links.ndjson")), workers=2)
@@ -732,7 +749,7 @@ def run(ctx):
             raise Infra("Linkage generator (%s) wrote only %d units" % (tag, len(cases)))
         ctx.phase("tlc " + tag)
         if quick:
-            stride = dict(obj=3, fn=1, graph2=1, graph3=8, graph4=4).get(tag, 1)
+            stride = dict(obj=3, fn=2, graph2=2, graph2k=6, graph3=16, graph4=4).get(tag, 1)
         else:            # thorough: TLC still checks every state; the two largest families are replayed in part
             stride = dict(obj=2, graph3=3).get(tag, 1)
         if os.environ.get("VERIF_C15_ORACLE") == "units":
